@@ -253,3 +253,43 @@ theorem scan_torn (c : WalCfg) (crc : Bytes → Nat) (step : Nat) (rs : List Rec
         · rw [if_neg h4]; simp
 
 end NoKV.Wal
+
+namespace NoKV.Wal
+
+theorem torn_length_le (crc : Bytes → Nat) (rs : List Rec) : ∀ n, (torn crc n rs).length ≤ n := by
+  induction rs with
+  | nil => intro n; simp [torn]
+  | cons r rs ih =>
+    intro n
+    simp only [torn]
+    split
+    · have := ih (n - encLen r); omega
+    · rw [List.length_take]; omega
+
+/-- If the scan of a torn remainder ends with EOF, fewer than 4 bytes remain (nothing, or — under
+the pinned short-header rule — a 1–3-byte header fragment). -/
+theorem scan_torn_eof_short (c : WalCfg) (crc : Bytes → Nat) (step : Nat) (rs : List Rec) (hr : ∀ r ∈ rs, RecOK r) :
+    ∀ n, (scan c crc step (torn crc n rs)).2.2 = .eof → (torn crc n rs).length < 4 := by
+  induction rs with
+  | nil => intro n _; simp [torn]
+  | cons r rs ih =>
+    intro n
+    simp only [torn]
+    split
+    · exact ih (fun y hy => hr y (by simp [hy])) _
+    · rename_i h
+      have hn : n < encLen r := by omega
+      have hd := decodeOne_prefix c crc r n (hr r (by simp)) hn
+      have hl : ((encode crc r).take n).length = n := by
+        rw [List.length_take, encode_length]; omega
+      unfold scan
+      simp only [scanFuel]
+      rw [hd, hl]
+      by_cases h0 : n = 0
+      · intro _; omega
+      · rw [if_neg h0]
+        by_cases h4 : n < 4
+        · intro _; exact h4
+        · rw [if_neg h4]; intro he; cases he
+
+end NoKV.Wal
